@@ -27,6 +27,7 @@ SHAPES = {
     "D2n": [["x", "y", "1"], ["x", "2"]],
     "DN": [["@", "t1"], ["z"]],        # "@" = the payload root's own name (sub-directory named like the root)
     "DNf": [["@"], ["b"]],             # a file named like the root
+    "DC": [["docs", "README"], ["docs", "readme"], ["Sub", "x"], ["sub", "x"]],   # names differing only in case
 }
 
 
@@ -60,7 +61,7 @@ def gen_trees(tier, rng, plens, quick_n, thorough_n, need_nonempty=True):
         for dl in deltas:
             out.append((rng.choice(("S1", "D1")), (npc * P0 + dl,), P0))
     n = thorough_n if tier == "thorough" else quick_n
-    shapes = ["D3", "D4", "D2n", "D2", "DN", "DNf"]
+    shapes = ["D3", "D4", "D2n", "D2", "DN", "DNf", "DC"]
     for _ in range(n):
         P = rng.choice(plens)
         A = alphabet(P)
@@ -303,7 +304,7 @@ class C08(CreateProp):
             v = (1, 2, 3)[b % 3]
             P = rng.choice(plens("quick"))
             A = alphabet(P)
-            sh = rng.choice(["D3", "D4", "D2n", "S1", "D2", "DN"])
+            sh = ["D3", "D4", "D2n", "S1", "D2", "DN", "DC", "DC"][b % 8] if b < 16 else rng.choice(["D3", "D4", "D2n", "S1", "D2", "DN", "DC"])
             k = 1 if sh == "S1" else len(SHAPES[sh])
             sizes = tuple(rng.choice(A) for _ in range(k))
             if sum(sizes) == 0:
